@@ -186,6 +186,7 @@ class Session:
         ok = tree is not None and self.tab.sid(tree) == self.tab.sid(self.root.a) and \
             self.tab.pid(tree) == self.tab.pid(self.root.a)
         self.msrc = src
+        self.tabs = any(ln.startswith('\t') for ln in src.split('\n'))
         self.mrows = stmt_rows(src, tree, self.blocks) if tree is not None else []
         self._keep = [n for n, _ in walk(self.root.a, True)]
         self.mpaths = {id(n): p for n, p in walk(self.root.a, True)}
@@ -195,11 +196,11 @@ class Session:
                                       'kind': r['kind']} for r in self.mrows]})
         self.script.append({'call': 'mark', 'src': src})
 
-    def site(self, owner, field, mode, idx=None):
+    def site(self, owner, field, mode, idx=None, src=''):
         p = self.mpaths.get(id(owner))
         org = 'mark' if p is not None else 'other' if id(owner) in self.other_ids else 'new'
         return {'known': p is not None, 'org': org, 'path': pj(p or ()), 'kind': owner.__class__.__name__, 'n': field,
-                'mode': mode, 'i': 0 if idx is None else idx + 1}
+                'mode': mode, 'i': 0 if idx is None else idx + 1, 'src': src}
 
     def register_other(self, fst_root):
         """Remember the AST objects of another FST tree (kept alive) so that sites inside them are classed 'other'."""
@@ -396,6 +397,12 @@ class Mutator:
                 op = rng.choice(ops)
                 n = len(val)
                 pc = (lambda i: 'only' if n == 1 else 'first' if i == 0 else 'last' if i == n - 1 else 'mid')
+
+                def mk(i, node):   # input classification: an `if` becomes the first statement of an `else:` block
+                    if kind == 'If' and field == 'orelse' and i == 0 and isinstance(node, ast.If):
+                        return '/If.orelse<If' + ('~tabs' if s.tabs else '')
+                    return ''
+
                 if op == 'replace' and n and (kind, field) == ('Dict', 'keys') and rng.random() < 0.3:
                     i = rng.randrange(n)
                     if val[i] is None:
@@ -412,7 +419,7 @@ class Mutator:
                         continue
                     node, org, d = got
                     val[i] = node
-                    s.mutated(f'replace_{org}', f'{where}.list.{pc(i)}', [s.site(owner, field, 'slot', i)],
+                    s.mutated(f'replace_{org}', f'{where}.list.{pc(i)}{mk(i, node)}', [s.site(owner, field, 'slot', i)],
                               f'{kind}.{field}[{i}] = {org}:{d}')
                     return True
                 if op == 'insert':
@@ -422,7 +429,7 @@ class Mutator:
                         continue
                     node, org, d = got
                     val.insert(i, node)
-                    s.mutated(f'insert_{org}', f'{where}.list.{"end" if i == n else pc(i)}',
+                    s.mutated(f'insert_{org}', f'{where}.list.{"end" if i == n else pc(i)}{mk(i, node)}',
                               [s.site(owner, field, 'list', i)], f'{kind}.{field}.insert({i}, {org}:{d})')
                     return True
                 if op == 'delete' and n >= 2:
@@ -460,7 +467,7 @@ class Mutator:
                     j = rng.randrange(len(l2) + 1)
                     l2.insert(j, x)
                     s.mutated('move', f'{where}.list.{pc(i)}',
-                              [s.site(owner, field, 'list', i), s.site(o2, f2, 'list', j)],
+                              [s.site(owner, field, 'list', i), s.site(o2, f2, 'list', j, src=kind)],
                               f'{o2.__class__.__name__}.{f2}.insert({j}, {kind}.{field}.pop({i}))')
                     return True
                 continue
@@ -511,6 +518,11 @@ class Mutator:
                 setattr(owner, field, new)
                 eqv = typ == 'constant' and new == val and type(new) is not type(val)   # e.g. True -> 1, 1 -> 1.0
                 dotted = '/dotted' if kind == 'ImportFrom' and field == 'level' and '.' in (owner.module or '') else ''
+                if (kind, field) in (('ImportFrom', 'module'), ('alias', 'name')) and val and id(owner) in s.mpaths:
+                    # a dotted name written with blanks / continuation lines around its dots (input classification)
+                    seg = ast.get_source_segment(s.msrc, owner) or ''
+                    if '.' in val and val not in seg:
+                        dotted = '/spaced'
                 s.mutated('setprim_eq' if eqv else 'setprim', f'prim.{kind}.{field}{dotted}', [s.site(owner, field, 'self')], f'{kind}.{field} = {new!r}')
                 return True
         return False
